@@ -482,9 +482,11 @@ def register_modules(
 
     kfac_layers: dict[torch.nn.Module, tuple[str, KFACBaseLayer]] = {}
     for name, module in modules:
-        module_name = module.__class__.__name__.lower()
+        class_name = module.__class__.__name__
+        module_name = class_name.lower()
         if (
             not any_match(name, skip_layers)
+            and not any_match(class_name, skip_layers)
             and not any_match(module_name, skip_layers)
             and requires_grad(module)
         ):
